@@ -16,7 +16,22 @@ EXCLUDE_DIRS = {".git", "__pycache__", "build", "tmp", "dist", ".pytest_cache",
 EXCLUDE_SUFFIX = (".so", ".pyc", ".pyo", ".o", ".os", ".exe")
 EXTENSIONS = ["esutil/recfile/_records", "esutil/cosmology/_cosmolib", "esutil/htm/_htmc",
               "esutil/stat/_chist", "esutil/integrate/_cgauleg"]
-MAX_CACHED = 4
+NATIVE_SUFFIX = (".c", ".cc", ".cpp", ".cxx", ".h", ".hpp")
+MAX_CACHED = 5
+
+
+def _native_donor(builds, nh, exclude):
+    for n in sorted(os.listdir(builds)):
+        p = os.path.join(builds, n)
+        if p == exclude or not os.path.isdir(p) or not _built(p):
+            continue
+        try:
+            with open(os.path.join(p, ".native")) as fh:
+                if fh.read().strip() == nh:
+                    return p
+        except OSError:
+            continue
+    return None
 
 
 def scratch_root():
@@ -130,6 +145,20 @@ def ensure_build(repo, log=None):
             shutil.rmtree(bdir, ignore_errors=True)
             os.makedirs(bdir)
             _copy_tree(repo, files, bdir)
+            nh = tree_hash(repo, [f for f in files if f.endswith(NATIVE_SUFFIX) or f == "setup.py"])
+            with open(os.path.join(bdir, ".native"), "w") as fh:
+                fh.write(nh + "\n")
+            donor = None if no_cache else _native_donor(builds, nh, bdir)
+            if donor is not None:
+                # same C/C++ sources as an existing build: reuse its extension modules
+                for e in EXTENSIONS:
+                    d, b = os.path.split(os.path.join(donor, e))
+                    for n in os.listdir(d):
+                        if n.startswith(b + ".") and n.endswith(".so"):
+                            shutil.copyfile(os.path.join(d, n), os.path.join(os.path.dirname(os.path.join(bdir, e)), n))
+                with open(os.path.join(bdir, ".ok"), "w") as fh:
+                    fh.write(th + " (extensions reused from %s)\n" % os.path.basename(donor))
+        if not _built(bdir):
             env = dict(os.environ)
             env.pop("PYTHONPATH", None)
             cmd = [sys.executable, "setup.py", "-q", "build_ext", "--inplace",
